@@ -221,23 +221,7 @@ ASPECTS = ["state", "order", "record_final"] + ["record_" + k for k in KINDS.val
 MAX_CANDIDATES = 256
 
 
-def s3_sensitive(inp, mode):
-    """forced-mode runs of the density-matrix backend are only demanded on inputs whose forced choices do not depend on
-    floating-point rounding (refsem.circuits.float_sensitive); the others are covered by the dedicated item
-    DensityMatrixCompiler.compile.forced_outcome_under_rounding"""
-    spec = inp["prog"]
-    init = inp.get("init")
-    if init is None:
-        return RC.float_sensitive(spec, mode)
-    n = RC.n_qubits(spec)
-    if "word" in init:
-        word = [tuple(g) for g in init["word"]]
-        return RC.float_sensitive(spec, mode, RC.word_state(n, word), any(g[0] == "H" for g in word))
-    _, v0 = initial_state(init, n, "dm")
-    return RC.float_sensitive(spec, mode, v0, True)
-
-
-def run_case(inp, backend, skip_s3_sensitive=True, finals=None):
+def run_case(inp, backend, finals=None):
     """returns {aspect: symptom or None} for one program on one backend, all three measurement settings.
 
     The textbook run follows the order in which compile handed the operations to compile_one_gate; aspect `order`
@@ -258,8 +242,6 @@ def run_case(inp, backend, skip_s3_sensitive=True, finals=None):
 
     runs = [(0, None), (1, None)] + [("probabilistic", s) for s in inp.get("pseeds", [0])]
     for mode, seed in runs:
-        if backend == "dm" and mode in (0, 1) and skip_s3_sensitive and s3_sensitive(inp, mode):
-            continue
         circuit, objs = build_circuit(spec)
         v0 = R.ket0(n)
         ist = None
@@ -340,8 +322,6 @@ def agree_case(inp, finals=None):
     spec = inp["prog"]
     n = RC.n_qubits(spec)
     for mode in (0, 1):
-        if s3_sensitive(inp, mode):
-            continue
         if finals is not None:
             if mode not in finals[0] or mode not in finals[1]:
                 continue  # a backend failed before the end: reported by its own items
@@ -401,10 +381,8 @@ _SITE_D = "graphiq.backends.density_matrix.compiler:DensityMatrixCompiler.compil
 _B_EX = ("all programs of <=2 ops over the 14 op kinds (I,H,P,Pdag,X,Y,Z,wrapper,CNOT,CZ,classical-CNOT,classical-CZ,"
          "Z-measure,measure-CNOT-reset) on all 8 register configurations with <=2 emitters, <=2 photons, 1 classical "
          "register (+ the 3 two-qubit configurations with 2 classical registers; + 1440 3-op programs [prepare control, prepare target in any of the 6 one-qubit stabilizer states, any two-qubit op] on (1e,1p),(2e,1p)); wrapper bodies: all 24 Clifford words + 7 non-canonical words in 1-op programs, {W} in 2-op programs; "
-         "x measurement_determinism 0, 1 and 'probabilistic' ({K} seeds, oracle conditioned on the recorded outcomes); dm forced modes "
-         "skipped on the few programs whose forced choice sits on a rounding-affected threshold (see item forced_outcome_under_rounding)")
-_B_RND = ("{N} seeded random programs of <=30 ops on <=5 qubits, 1-3 classical registers, modes 'probabilistic' ({K} seeds) and 0/1 "
-          "(forced modes only where the forced result is independent of the linearisation; dm forced modes only where the forced choice does not sit on a rounding-affected threshold)")
+         "x measurement_determinism 0, 1 and 'probabilistic' ({K} seeds, oracle conditioned on the recorded outcomes))")
+_B_RND = "{N} seeded random programs of <=30 ops on <=5 qubits, 1-3 classical registers, modes 0, 1 and 'probabilistic' ({K} seeds)"
 _C_STATE = "compiling with the backend yields exactly the textbook state (|0..0> start, photons before emitters, reset leaves |0>) under each measurement setting"
 _C_REC = "the classical record equals the outcomes actually drawn (probabilistic: state = textbook state conditioned on the record)"
 _C_ORD = "operations are applied in an order consistent with the circuit (wrappers: last listed gate first)"
@@ -435,9 +413,8 @@ for _suffix, _bound in (("", _B_EX), ("_random", _B_RND)):
         bound="seeded sample: random programs of <=8 ops on <=3 qubits x random stabilizer initial state (random H/P/CNOT word of <=10 gates, tableau with destabilizers and signs built by refsem), modes 0/1/'probabilistic'",
         clause="optional initial state: the result is the textbook run started from that state")
 def init_stab(inp):
-    # state only: the classical-record clause has its own items (and the stabilizer backend's measure-CNOT-reset never
-    # writes its register, see C01.findings.md), so that it cannot mask the initial-state clause here
-    return run_case(inp, "stabilizer")["state"]
+    r = run_case(inp, "stabilizer")
+    return r["state"] or next((r[a] for a in ASPECTS if r[a]), None)
 
 
 @S.item("compile.initial_state.dm", site="graphiq.backends.compiler_base:CompilerBase.compile",
@@ -445,7 +422,7 @@ def init_stab(inp):
         clause="optional initial state: the result is the textbook run started from that state")
 def init_dm(inp):
     r = run_case(inp, "dm")
-    return r["state"] or next((r[a] for a in ASPECTS if a.startswith("record") and r[a]), None)
+    return r["state"] or next((r[a] for a in ASPECTS if r[a]), None)
 
 
 # ------------------------------------------------------------------ forced outcomes when probabilities carry rounding error
@@ -455,7 +432,7 @@ def init_dm(inp):
         exhaustive=True,
         clause="forced 0 / forced 1 yield the textbook state (take the forced value unless it has probability 0) - on inputs where the density-matrix probabilities are 0/1 only up to rounding")
 def float_case(inp):
-    r = run_case(dict(inp, pseeds=[]), "dm", skip_s3_sensitive=False)
+    r = run_case(dict(inp, pseeds=[]), "dm")
     return r["state"] or next((r[a] for a in ASPECTS if r[a]), None)
 
 
@@ -496,8 +473,6 @@ def reset_case(inp):
     zc = R.pauli([0] * n, [int(j == c) for j in range(n)])
     for backend in ("stabilizer", "dm"):
         for mode, seed in ((0, None), (1, None), ("probabilistic", inp["pseeds"][0])):
-            if backend == "dm" and mode in (0, 1) and s3_sensitive(inp, mode):
-                continue
             circuit, _ = build_circuit(spec)
             st, _ = compile_traced(circuit, backend, mode, seed)
             if backend == "dm":
@@ -591,15 +566,17 @@ def domain_exhaustive(tier, seed):
 
     words1 = RC.WORDS24 + RC.EXTRA_WORDS
     progs = list(RC.enumerate_programs(2, words1, _W2_QUICK))
+    # two classical registers (every op of the alphabet on either register) on the two-qubit configurations
+    progs += list(RC.enumerate_programs(2, [RC.WORDS24[5]], [RC.WORDS24[5]], configs=[(1, 1), (0, 2), (2, 0)], nc=2))
+    progs += prepared_two_qubit_programs()
     k = 2
     if tier == "thorough":
         k = 3
         seen = {jkey(p) for p in progs}
         progs += [p for p in RC.enumerate_programs(2, words1, RC.WORDS24 + [RC.EXTRA_WORDS[1]]) if jkey(p) not in seen]
-    # two classical registers (every op of the alphabet on either register) on the two-qubit configurations
-    progs += list(RC.enumerate_programs(2, [RC.WORDS24[5]], [RC.WORDS24[5]], configs=[(1, 1), (0, 2), (2, 0)], nc=2))
-    progs += prepared_two_qubit_programs()
-    w = len(_W2_QUICK) if tier != "thorough" else 25
+        # all 3-op programs on one emitter + one photon (wrapper bodies: the quick set)
+        progs += [p for p in RC.enumerate_programs(3, [], _W2_QUICK, configs=[(1, 1)]) if len(p["ops"]) == 3]
+    w = f"{len(_W2_QUICK)} bodies" if tier != "thorough" else "25 bodies; thorough also all 39304 programs of 3 ops on (1 emitter, 1 photon) with 4 bodies"
     return [{"prog": p, "pseeds": _pseeds(seed, i, k)} for i, p in enumerate(progs)], w, k
 
 
@@ -654,7 +631,7 @@ def run(tier, seed):
         return S
     ex, w, k = domain_exhaustive(tier, seed)
     for name in _MULTI.values():
-        S.items[name].bound = S.items[name].bound.replace("{W}", f"{w} bodies").replace("{K}", str(k))
+        S.items[name].bound = S.items[name].bound.replace("{W}", w).replace("{K}", str(k))
     multi_map(S, both_backends, _MULTI, ex, "", nontrivial=nt)
 
     rnd, N, k = domain_random(tier, seed)
@@ -668,5 +645,5 @@ def run(tier, seed):
     S.map("reg_to_index_func.photons_first", [[a, b] for a in range(7) for b in range(7)])
     S.map("MeasurementCNOTandReset.reset_leaves_zero", domain_reset(tier, seed), nontrivial=nt)
     S.note("classical record observed by wrapping the compiler instance's compile_one_gate (the GRAPHIQ_VERIF hook of the property anchors does not exist in /repo)")
-    S.note("probabilistic mode: np.random.seed(seed) before compile; the oracle is conditioned on the recorded outcomes; 'state' additionally searches all feasible outcome branches so that a wrong record does not mask a right state")
+    S.note("the textbook run follows the order in which compile handed the operations to compile_one_gate (checked by the `order` items to be consistent with the program); probabilistic mode: np.random.seed(seed) before compile, the state after every measuring op is matched against the outcome branches of non-zero probability, and the record is demanded to equal a branch consistent with all observed states")
     return S
